@@ -26,14 +26,21 @@ func VP_C08_Reset() {
 		f2 = vpComp("fd", zzvp.Param("complen", 1)) + "/" + vpComp("fe", 1) + "/" + vpComp("fb", zzvp.Param("complen", 1))
 	}
 	zzvp.Assume(f1 != f2 && !vpHasDirPrefix(f2, f1))
-	c1a, c1b := zzvp.Bytes("c1a", 1, ""), zzvp.Bytes("c1b", 1, "")
+	// file contents are fixed (reset does not depend on them) unless symcontent=1
+	c1a, c1b := []byte("A"), []byte("B")
+	if zzvp.Param("symcontent", 0) == 1 {
+		c1a, c1b = zzvp.Bytes("c1a", 1, ""), zzvp.Bytes("c1b", 1, "")
+	}
 	zzvp.WriteFile(w+"/"+f1, c1a)
 	zzvp.WriteFile(w+"/"+f2, c1b)
 	vpOK(zzvp.Run("add", f1, f2))
 	vpOK(zzvp.Run("commit", "-m", "c1"))
 	first, _, _ := vpBranch("main")
 	vpOK(zzvp.Run("branch", "dev"))
-	c2a := zzvp.Bytes("c2a", 1, "")
+	c2a := []byte("C")
+	if zzvp.Param("symcontent", 0) == 1 {
+		c2a = zzvp.Bytes("c2a", 1, "")
+	}
 	if zzvp.Choose(2) == 0 {
 		zzvp.Assume(string(c2a) != string(c1a))
 		zzvp.WriteFile(w+"/"+f1, c2a)
